@@ -101,6 +101,9 @@ static bool pending_written;             /* wr_data was called since the previou
 static uint32_t pending_len;
 static uint8_t pending_payload[PH + BLKBYTES];
 
+static uint64_t get_sample(const uint8_t * p, uint32_t k);
+static bool omit_requested;
+
 int64_t jls_raw_chunk_tell(struct jls_raw_s * self) {
     (void) self;
     last_tell += 64;
@@ -156,6 +159,31 @@ int32_t jls_core_fsr_summary1(struct jls_core_fsr_s * self, int64_t pos) {
             CHECK(self->write_omit_data > 1, "block omitted although omission was not requested");
 #endif
         }
+#ifdef OMIT_CHECK
+        {
+            /* C15-O1: the omission decision.  <= 8 bit: a block is omitted iff it is not the first and every sample equals
+             * the first sample of the block (decided here for full blocks; a short last block may only be omitted if constant).
+             * wider types: iff omission was requested before the previous block completed and it is not the first block. */
+            bool omitted = (pos == 0);
+#if BITS <= 8
+            bool all_equal = true;
+            uint64_t first = get_sample(&sdata[n_stream * BLKBYTES], 0);
+            for (unsigned i = 0; i < BLOCK; ++i) {
+                if (i < b->entry_count && get_sample(&sdata[n_stream * BLKBYTES], i) != first) {
+                    all_equal = false;
+                }
+            }
+            if (omitted) {
+                CHECK(all_equal, "only constant blocks are omitted automatically");
+            }
+            if (b->entry_count == BLOCK) {
+                CHECK(omitted == (all_equal && n_stream != 0), "a full block is omitted iff it is constant and not the first");
+            }
+#else
+            CHECK(omitted == (omit_requested && n_stream != 0), "a block is omitted iff omission is in effect and it is not the first");
+#endif
+        }
+#endif
         ++n_stream;
     }
     pending_written = false;
@@ -209,10 +237,15 @@ void harness(void) {
     int32_t rc = jls_fsr_open(&fsr, sig);
     ASSUME(rc == 0 && fsr != NULL);
     sig->track_fsr = fsr;
+    /* In a real session the memory right behind the scratch buffer (level[] pointers) is non-zero; level[0] is
+     * documented as unused, so a non-NULL value there makes a read past the scratch visible as a non-zero fill. */
+    static struct jls_core_fsr_level_s sentinel_level;
+    fsr->level[0] = &sentinel_level;
 #ifdef OMIT_REQUEST
     SYM_U8(omit_at_start);
     if (omit_at_start & 1) {
         fsr->write_omit_data |= 1;      /* what jls_wr_fsr_omit_data(.., 1) does */
+        omit_requested = true;
     }
 #endif
 
